@@ -149,6 +149,100 @@ impl RefMem {
         *self = snap.clone();
     }
 
+    /// Page-wise bulk read (same result as [`RefMem::read`]).
+    pub fn read_vec(&self, start: u64, len: u64) -> Vec<u8> {
+        let mut out = vec![0u8; len as usize];
+        let (s, e) = (start as usize, (start + len) as usize);
+        let mut a = s;
+        while a < e {
+            let pg = a / PAGE;
+            let hi = ((pg + 1) * PAGE).min(e);
+            if let Some(p) = self.pages.get(&pg) {
+                out[a - s..hi - s].copy_from_slice(&p[a % PAGE..(hi - 1) % PAGE + 1]);
+            }
+            a = hi;
+        }
+        out
+    }
+
+    /// Page-wise bulk write.
+    pub fn write_bulk(&mut self, start: u64, data: &[u8]) {
+        let (s, e) = (start as usize, start as usize + data.len());
+        let mut a = s;
+        while a < e {
+            let pg = a / PAGE;
+            let hi = ((pg + 1) * PAGE).min(e);
+            let chunk = &data[a - s..hi - s];
+            if chunk.iter().any(|b| *b != 0) || self.pages.contains_key(&pg) {
+                let p = self.pages.entry(pg).or_insert_with(|| Box::new([0u8; PAGE]));
+                p[a % PAGE..(hi - 1) % PAGE + 1].copy_from_slice(chunk);
+            }
+            a = hi;
+        }
+    }
+
+    /// Address of the first byte at which `bytes` differs from the model contents at
+    /// `start..start+bytes.len()`.
+    pub fn first_diff(&self, start: u64, bytes: &[u8]) -> Option<u64> {
+        let (s, e) = (start as usize, start as usize + bytes.len());
+        let mut a = s;
+        while a < e {
+            let pg = a / PAGE;
+            let hi = ((pg + 1) * PAGE).min(e);
+            let got = &bytes[a - s..hi - s];
+            match self.pages.get(&pg) {
+                Some(p) => {
+                    let want = &p[a % PAGE..(hi - 1) % PAGE + 1];
+                    if got != want {
+                        let i = got.iter().zip(want).position(|(x, y)| x != y).unwrap();
+                        return Some((a + i) as u64);
+                    }
+                }
+                None => {
+                    if let Some(i) = got.iter().position(|x| *x != 0) {
+                        return Some((a + i) as u64);
+                    }
+                }
+            }
+            a = hi;
+        }
+        None
+    }
+
+    /// Same region bounds and same contents (bytes outside the regions are zero in both
+    /// by the model invariant, so comparing all pages compares the accessible contents).
+    pub fn same_as(&self, other: &RefMem) -> bool {
+        if self.stack_extent != other.stack_extent || self.hp != other.hp {
+            return false;
+        }
+        let zero = |p: &[u8; PAGE]| p.iter().all(|b| *b == 0);
+        for (k, p) in &self.pages {
+            match other.pages.get(k) {
+                Some(q) => {
+                    if p != q {
+                        return false;
+                    }
+                }
+                None => {
+                    if !zero(p) {
+                        return false;
+                    }
+                }
+            }
+        }
+        for (k, q) in &other.pages {
+            if !self.pages.contains_key(k) && !zero(q) {
+                return false;
+            }
+        }
+        true
+    }
+
+    /// number of materialised pages (monitor bookkeeping)
+    pub fn pages_len(&self) -> usize {
+        self.pages.len()
+    }
+
     /// zero everything outside the accessible regions (model invariant helper)
     pub fn normalise(&mut self) {
         let (se, hp) = (self.stack_extent, self.hp);
